@@ -3,6 +3,7 @@ package lmd
 import (
 	"fmt"
 	"sort"
+	"strconv"
 	"strings"
 
 	"github.com/a8m/djson"
@@ -17,6 +18,38 @@ type ResultSetStats struct {
 	Stats       map[string][]*Filter
 	Total       int // total number of matched rows regardless of any limits or offsets
 	RowsScanned int // total number of rows scanned to create result
+}
+
+// joinStatsKey builds the key of a stats result line from the texts of the group columns.
+// Every text is prefixed with its length, so splitStatsKey gets them back whatever bytes they contain.
+func joinStatsKey(values []string) string {
+	var key strings.Builder
+	for _, val := range values {
+		key.WriteString(strconv.Itoa(len(val)))
+		key.WriteByte(':')
+		key.WriteString(val)
+	}
+
+	return key.String()
+}
+
+// splitStatsKey returns the texts joinStatsKey built the key from.
+func splitStatsKey(key string) []string {
+	values := []string{}
+	for key != "" {
+		sep := strings.IndexByte(key, ':')
+		if sep < 0 {
+			break
+		}
+		size, err := strconv.Atoi(key[:sep])
+		if err != nil || size < 0 || sep+1+size > len(key) {
+			break
+		}
+		values = append(values, key[sep+1:sep+1+size])
+		key = key[sep+1+size:]
+	}
+
+	return values
 }
 
 func NewResultSetStats() *ResultSetStats {
